@@ -109,8 +109,16 @@ pub async fn dispatch_command<W: AsyncWrite + Unpin>(
             }
         }
         _ => {
-            error!(target: "sneldb::dispatch", ?cmd, "Unreachable command variant encountered");
-            unreachable!("dispatch_command called with non-command")
+            // e.g. a parsed BATCH: there is no handler for it on this path. Answer with an
+            // error instead of panicking the connection task.
+            error!(target: "sneldb::dispatch", ?cmd, "Command variant without a handler");
+            let resp = Response::error(
+                StatusCode::BadRequest,
+                "Command is not supported on this interface",
+            );
+            writer.write_all(&renderer.render(&resp)).await?;
+            writer.flush().await?;
+            Ok(())
         }
     }
 }
